@@ -13,7 +13,7 @@ of Simulation.save_results regenerated from the source)
 import json
 
 import common
-from common import coq_lit, Nat, CoqRaw
+from common import coq_lit, Nat, CoqRaw, Some
 
 K_F11 = 'C18:save_results:resume-with-partial-output:backup-unlinked-before-write'
 K_F12 = 'C18:TimeEvolutionAlgorithm.get_resume_data:trunc_err-not-restored'
@@ -161,17 +161,71 @@ def close(a, b, tol):
     return a == b
 
 
-def real_oracle(ctx, out, coq_cases, coq_meta):
+def group_stack(before):
+    """grouping stack of a psi as run()/resume_run() meets it: ungrouped or grouped once (checkpoint)."""
+    return [] if before == 1 else [before]
+
+
+def group_literal(loaded, gs, stack, enter, split):
+    """Coq literal of Model/ResumeProto.v check_group for one observed group_sites_for_algorithm (+ group_split)."""
+    return coq_lit((bool(loaded), Nat(gs), [Nat(x) for x in stack], (Nat(enter['L_psi']), Nat(enter['L_model'])),
+                    (Nat(enter['after']), Nat(enter['L_psi_after']), Nat(enter['L_model_after'])),
+                    None if split is None else Some(Nat(split['after']))))
+
+
+def group_events(ctx, what, events, gs_opt, loaded, case, coq_group, meta_group):
+    """Oracle + model case for the grouping events of one process life time (fresh run or resume).
+    Oracle (docs of the option group_sites: psi and model are coarse-grained by group_sites for the algorithm and
+    split again at the end): after group_sites_for_algorithm psi and model have the same length, psi.grouped ==
+    group_sites; after group_split psi is ungrouped."""
+    enters = [e for e in events if e['what'] == 'enter']
+    splits = [e for e in events if e['what'] == 'split']
+    probs = []
+    if len(enters) != 1:
+        probs.append('%d calls of group_sites_for_algorithm' % len(enters))
+    for e in enters:
+        if e['loaded'] != loaded or e['gs'] != gs_opt:
+            probs.append('group_sites_for_algorithm ran with loaded_from_checkpoint=%s group_sites=%s' % (e['loaded'], e['gs']))
+        if e['after'] != gs_opt or e['L_psi_after'] != e['L_model_after']:
+            probs.append('after group_sites_for_algorithm (loaded_from_checkpoint=%s, group_sites=%d, psi.grouped before=%d): '
+                         'psi.grouped=%d, psi.L=%d but the model has %d sites'
+                         % (e['loaded'], gs_opt, e['before'], e['after'], e['L_psi_after'], e['L_model_after']))
+    for e in splits:
+        if e['after'] != 1 or e['sim_grouped'] != 1:
+            probs.append('after group_split psi.grouped=%d, sim.grouped=%d' % (e['after'], e['sim_grouped']))
+    if probs:
+        ctx.fail('oracle', '%s: ' % what + '; '.join(probs)[:700], dict(case, group_events=events), match_key='C18:real:grouping')
+    if len(enters) == 1:
+        coq_group.append(group_literal(loaded, gs_opt, group_stack(enters[0]['before']), enters[0], splits[0] if splits else None))
+        meta_group.append(dict(case, group_events=events))
+
+
+def real_oracle(ctx, out, coq_cases, coq_meta, coq_group=None, meta_group=None):
+    coq_group = [] if coq_group is None else coq_group
+    meta_group = [] if meta_group is None else meta_group
     spec = out['spec']
+    stream = spec.get('stream', 'real-resume')
     is_te = spec['sim'] == 'RealTimeEvolution'
+    sp = spec.get('sim_params', {})
+    minit = bool(sp.get('measure_initial', True))
+    gs_opt = int(sp.get('group_sites', 1))
+    save_psi = bool(sp.get('save_psi', True))
+    resumable = save_psi or bool(sp.get('save_resume_data', save_psi))
     plain = out['plain']
     pm = plain['measurements']
     nrec = len(pm['measurement_index'])
-    base = {'stream': 'real-resume', 'spec': spec}
+    base = {'stream': stream, 'spec': spec}
     if not out['plain_file_equal'] or not plain['finished']:
         ctx.fail('oracle', 'plain run: file on disk differs from the returned results / not finished', base, match_key='C18:real:plain')
+    if plain.get('has_psi') != save_psi or (save_psi and abs(out.get('plain_file_overlap', 0) - 1) > 1e-9):
+        ctx.fail('oracle', 'plain run: save_psi=%s but results %s psi (overlap of the saved psi with the final state: %r)'
+                 % (save_psi, 'contain' if plain.get('has_psi') else 'do not contain', out.get('plain_file_overlap')),
+                 base, match_key='C18:real:plain-psi')
     if pm['measurement_index'] != list(range(nrec)):
         ctx.fail('oracle', 'plain run: measurement_index %s' % pm['measurement_index'], base, match_key='C18:real:plain-index')
+    if plain.get('psi_grouped', 1) != 1:
+        ctx.fail('oracle', 'plain run: final state has psi.grouped = %s' % plain.get('psi_grouped'), base, match_key='C18:real:grouping')
+    group_events(ctx, 'plain run', plain.get('group', []), gs_opt, False, dict(base, at=None), coq_group, meta_group)
     tkey = 'evolved_time' if is_te else 'sweeps'
     unit = spec.get('dt', 0.05) if is_te else 1
     ptimes = [int(round(t / unit)) for t in pm[tkey]]
@@ -179,28 +233,47 @@ def real_oracle(ctx, out, coq_cases, coq_meta):
     for rec in out['interrupted']:
         c, mode = rec['at'], rec['mode']
         case = dict(base, at=c, mode=mode)
-        ctx.count('real-resume', [spec, c, mode], nontrivial=True,
+        ctx.count(stream, [spec, c, mode], nontrivial=True,
                   sample={'spec': spec, 'at': c, 'mode': mode, 'disk': rec.get('disk'), 'loaded': rec.get('loaded')})
-        # number of measurement records a checkpoint file must contain: initial + one per checkpoint
-        exp_records = c + 1 if mode == 'listener' else c
-        if rec.get('loaded') is None:
-            if 'error' in rec:
-                ctx.fail('oracle', rec['error'][:400], case, match_key='C18:real:interrupt')
-            elif not (mode != 'listener' and c == 1):
-                ctx.fail('oracle', 'no loadable file after stopping at checkpoint %d (%s): disk %s' % (c, mode, rec['disk']),
-                         case, match_key='C18:real:checkpoint-lost')
+        # the property: the file of the last COMPLETED save must be loadable (saves = number of measurement records the
+        # results held at each completed save_results call of the interrupted process); with save_every_x_seconds = 0
+        # a save happens at every checkpoint: c-th checkpoint <-> initial record + one record per checkpoint
+        saves = rec.get('saves', [])
+        if 'error' in rec and 'ckpt_measurements' not in rec:
+            ctx.fail('oracle', rec['error'][:400], case, match_key='C18:real:interrupt')
             continue
-        if rec['ckpt_measurements'] != exp_records:
-            ctx.fail('oracle', 'file loaded after stopping at checkpoint %d (%s) holds %d measurement records, expected %d'
-                     % (c, mode, rec['ckpt_measurements'], exp_records), case, match_key='C18:real:stale-checkpoint')
+        if not spec.get('clock') and sp.get('save_every_x_seconds', 0.) == 0.:
+            exp_saves = [(1 if minit else 0) + i for i in range(1, (c if mode == 'listener' else c - 1) + 1)]
+            if saves != exp_saves:
+                ctx.fail('oracle', 'save_every_x_seconds=0: completed saves before the stop at checkpoint %d (%s) held %s records, '
+                         'expected %s' % (c, mode, saves, exp_saves), case, match_key='C18:real:save-schedule')
+        if rec.get('loaded') is None:
+            if saves:
+                ctx.fail('oracle', 'no loadable file after stopping at checkpoint %d (%s) although %d save(s) had completed: disk %s'
+                         % (c, mode, len(saves), rec['disk']), case, match_key='C18:real:checkpoint-lost')
+            continue
+        if not saves or rec['ckpt_measurements'] != saves[-1]:
+            ctx.fail('oracle', 'file loaded after stopping at checkpoint %d (%s) holds %d measurement records, the last completed '
+                     'save held %s' % (c, mode, rec['ckpt_measurements'], saves[-1:] or 'none'), case, match_key='C18:real:stale-checkpoint')
+        group_events(ctx, 'interrupted run', rec.get('group_first', []), gs_opt, False, case, [], [])
+        if not resumable:
+            # neither psi nor resume data in the file: the documented refusal, and the files stay as they are
+            e = rec.get('error', '')
+            if "ValueError: psi not saved in the results: can't resume!" not in e:
+                ctx.fail('oracle', 'save_psi=False, save_resume_data=False: resume did not refuse with the documented ValueError: %s'
+                         % (e[:300] or 'it finished'), case, match_key='C18:real:resume-without-state')
+            continue
         if 'error' in rec:
             e = rec['error']
             key = 'C18:real:resume-raises'
             if (spec['sim'] == 'GroundStateSearch' and 'IndexError' in e and 'is_converged' in e and "sweep_stats['E'][-1]" in e):
                 key = K_F18
-            ctx.fail('oracle', 'resume from checkpoint %d (%s) of %s/%s: %s' % (c, mode, spec['sim'], spec['alg'], e[:300]),
-                     case, match_key=key)
+            ctx.fail('oracle', 'resume from checkpoint %d (%s) of %s/%s (%s): %s' % (c, mode, spec['sim'], spec['alg'], sp, e[:300]),
+                     dict(case, group_events=rec.get('group_resume')), match_key=key)
+            group_events(ctx, 'resumed run', rec.get('group_resume', []), gs_opt, True, case, coq_group, meta_group)
             continue
+        group_events(ctx, 'resumed run', rec.get('group_resume', []), gs_opt, True, case, coq_group, meta_group)
+        exp_records = rec['ckpt_measurements']
         rs = rec['resumed']
         rm = rs['measurements']
         probs = []
@@ -210,6 +283,11 @@ def real_oracle(ctx, out, coq_cases, coq_meta):
             probs.append('final energy %.15g, plain run %.15g' % (rs.get('energy', float('nan')), plain['energy']))
         if rec['overlap'] is None or abs(rec['overlap'] - 1) > 1e-9 or abs(rec['norm_ratio'] - 1) > 1e-9:
             probs.append('final state differs: |<plain|resumed>| = %r, norm ratio %r' % (rec['overlap'], rec['norm_ratio']))
+        if rs.get('psi_grouped', 1) != 1 or rs.get('psi_L') != plain.get('psi_L'):
+            probs.append('final state has psi.grouped=%s, L=%s (plain run: 1, %s)' % (rs.get('psi_grouped'), rs.get('psi_L'), plain.get('psi_L')))
+        if rs.get('has_psi') != save_psi or (save_psi and abs(rec.get('file_overlap', 0) - 1) > 1e-9):
+            probs.append('save_psi=%s but the results %s psi (overlap of the psi in the file with the plain final state %r)'
+                         % (save_psi, 'contain' if rs.get('has_psi') else 'do not contain', rec.get('file_overlap')))
         if sorted(rm) != sorted(pm):
             probs.append('measurement keys %s, plain run %s' % (sorted(rm), sorted(pm)))
         if not rec.get('file_equal') or rec['disk_after']['out'][0] != 'C' or rec['disk_after']['bak'] != ['A']:
@@ -227,18 +305,26 @@ def real_oracle(ctx, out, coq_cases, coq_meta):
                 else:
                     probs.append('%s: %s, plain run %s' % (k, rm[k], pm[k]))
         if probs:
-            ctx.fail('oracle', 'stopped at checkpoint %d (%s) and resumed %s/%s (%s): ' % (c, mode, spec['sim'], spec['alg'], spec['fmt'])
+            ctx.fail('oracle', 'stopped at checkpoint %d (%s) and resumed %s/%s (%s, %s): ' % (c, mode, spec['sim'], spec['alg'], spec['fmt'], sp)
                      + '; '.join(probs)[:900], dict(case, resumed=rs, plain=plain), match_key='C18:real:resumed-differs')
         if f12:
             ctx.fail('oracle', 'stopped at checkpoint %d and resumed %s: %s restart from the initial truncation error '
                      '(resumed %s, plain %s)' % (c, spec['alg'], '/'.join(f12), rm[f12[0]], pm[f12[0]]),
                      dict(case, resumed=rm[f12[0]], plain=pm[f12[0]]), match_key=K_F12)
-        if tkey in rm and mode == 'listener':
-            ints.append((Nat(c - 1), [Nat(int(round(t / unit))) for t in rm[tkey]]))
+        if tkey in rm:
+            # index of the snapshot the loaded file holds = number of its records made at checkpoints - 1
+            k_snap = rec['ckpt_measurements'] - (1 if minit else 0) - 1
+            ck_g = [g for g in rec.get('ckpt_psi_grouped', []) if g is not None]
+            if k_snap >= 0 and ck_g and len(set(ck_g)) == 1:
+                ints.append(((Nat(k_snap), Nat(ck_g[0])), [Nat(int(round(t / unit))) for t in rm[tkey]], Nat(rs.get('psi_grouped', 1))))
+            elif len(set(ck_g)) > 1:
+                ctx.fail('oracle', "results['psi'] and resume_data['psi'] of the checkpoint have different grouping %s" % ck_g, case,
+                         match_key='C18:real:grouping')
     T = int(round(spec.get('final_time', 0.4) / unit)) if is_te else spec.get('max_sweeps', 3)
     N = spec.get('N_steps', 2) if is_te else spec.get('N_sweeps_check', 1)
     if spec.get('protocol_model', True):
-        coq_cases.append(coq_lit((is_te, Nat(T), Nat(N), [Nat(t) for t in ptimes], ints)))
+        coq_cases.append(coq_lit((is_te, Nat(T), Nat(N), minit, Nat(gs_opt), [Nat(t) for t in ptimes], Nat(plain.get('psi_grouped', 1)),
+                                  [((k, t), g) for (k, t, g) in ints])))
         coq_meta.append(dict(base, plain_times=ptimes))
 
 
@@ -276,6 +362,127 @@ def real_specs(ctx):
                               'final_time': rng.choice([0.3, 0.35, 0.5]),
                               'alg_params': {'compression_method': 'SVD'} if alg == 'ExpMPOEvolution' else {}})
     return specs
+
+
+def option_specs(ctx):
+    """Resume-equivalence over the simulation options that interact with a resume (stream real-resume-options):
+    simulation/algorithm class x output format x group_sites in {1,2} (+ group_to_NearestNeighborModel for TEBD) x
+    measure_initial x save at every checkpoint / every few checkpoints (save_every_x_seconds > 0 under a deterministic
+    clock, incl. its adaptive increase) x (save_psi, save_resume_data) in {(T,T), (F,T), (F,F)}.  Not drawn:
+    save_psi=True with save_resume_data=False (the file then lacks the algorithm's state - evolved time / sweep counter -
+    and tenpy restarts the algorithm from the stored psi: outside 'resuming from a checkpoint')."""
+    rng = ctx.rng
+    algs = [('RealTimeEvolution', 'TEBDEngine'), ('GroundStateSearch', 'TwoSiteDMRGEngine'), ('RealTimeEvolution', 'TwoSiteTDVPEngine'),
+            ('GroundStateSearch', 'SingleSiteDMRGEngine'), ('RealTimeEvolution', 'SingleSiteTDVPEngine'),
+            ('RealTimeEvolution', 'ExpMPOEvolution'), ('RealTimeEvolution', 'TEBDEngine')]
+    rng.shuffle(algs)
+    n = 6
+    if ctx.thorough() or not ctx.proof.ok:      # a broken proof obligation: search more of the option space
+        more = list(algs)
+        rng.shuffle(more)
+        algs = algs + more
+        n = len(algs)
+    specs = []
+    for i, (sim, alg) in enumerate(algs[:n]):
+        gs = 2 if (i % 3 != 2) else 1                       # two of three specs use grouping
+        is_te = sim == 'RealTimeEvolution'
+        sp = {}
+        if gs > 1:
+            sp['group_sites'] = gs
+        elif rng.random() < 0.3:
+            sp['group_sites'] = 1                           # the default, given explicitly
+        if rng.random() < 0.5:
+            sp['measure_initial'] = False
+        r = rng.random()
+        if r < 0.35:
+            sp.update(save_psi=False, save_resume_data=True)
+        elif r < 0.45 and gs == 1:
+            sp.update(save_psi=False)                       # nothing to resume from: documented refusal
+        elif r < 0.6:
+            sp.update(save_resume_data=True)
+        spec = {'stream': 'real-resume-options', 'sim': sim, 'alg': alg, 'fmt': rng.choice(['pkl', 'h5']),
+                'L': 8 if (gs > 1 and alg != 'TwoSiteDMRGEngine') else 6, 'chi': rng.choice([3, 4, 6])}
+        if rng.random() < 0.4:
+            spec['clock'] = 1.0
+            sp['save_every_x_seconds'] = rng.choice([5., 9.])
+        if is_te:
+            nst = rng.choice([1, 2])
+            spec.update(dt=0.05, N_steps=nst, final_time=0.05 * nst * rng.choice([3, 4]))
+            if alg == 'TEBDEngine':
+                spec['order'] = rng.choice([1, 2, 4])
+                if gs > 1 and rng.random() < 0.5:
+                    sp['group_to_NearestNeighborModel'] = True
+                    spec.update(model='SpinChainNNN2', model_params={'Jxp': 0.3, 'Jyp': 0.3, 'Jzp': 0.2, 'sort_charge': None})
+            if alg == 'ExpMPOEvolution':
+                spec['alg_params'] = {'compression_method': 'SVD'}
+        else:
+            spec.update(max_sweeps=rng.choice([2, 3]), N_sweeps_check=1)
+        spec['sim_params'] = sp
+        # every checkpoint is stopped after its save_at_checkpoint call; one of the two crash modes in addition
+        spec['modes'] = ['listener', rng.choice(['write', 'rename'])] if not ctx.thorough() else ['listener', 'write', 'rename']
+        specs.append(spec)
+    return specs
+
+
+def guard_cases(ctx):
+    """Simulation.group_sites_for_algorithm + group_split called directly: psi pre-grouped (stack of factors) x option
+    group_sites x loaded_from_checkpoint (x group_to_NearestNeighborModel), incl. the states a run cannot reach."""
+    rng = ctx.rng
+    cases = []
+    for stack in ([], [2], [3], [4], [2, 2]):
+        before = 1
+        for x in stack:
+            before *= x
+        for gs in (0, 1, 2, 3, 4):
+            for loaded in (False, True):
+                if before * max(gs, 1) > 8:
+                    continue
+                cases.append({'L': rng.choice([12, 12, 10, 13]) if before == 1 else 12, 'stack': stack, 'before': before, 'gs': gs,
+                              'loaded': loaded, 'to_NN': rng.random() < 0.25})
+    return cases
+
+
+def guard_eval(ctx, cases, results, coq_group, meta_group):
+    for c, r in zip(cases, results):
+        case = {'stream': 'group-guard', 'case': c}
+        ctx.count('group-guard', c, nontrivial=c['gs'] > 1, sample={'case': c, 'observed': r.get('group')})
+        ev = r.get('group', [])
+        enters = [e for e in ev if e['what'] == 'enter']
+        splits = [e for e in ev if e['what'] == 'split']
+        if c['gs'] < 1:
+            if not r['outcome'].startswith('raise: ValueError') or (enters and enters[0]['after'] != c['before']):
+                ctx.fail('oracle', 'group_sites=%d is invalid but group_sites_for_algorithm gave: %s' % (c['gs'], r['outcome'][:200]),
+                         dict(case, observed=r), match_key='C18:guard:invalid')
+            continue
+        if r['outcome'] != 'ok' or len(enters) != 1 or len(splits) != 1:
+            ctx.fail('correspondence', 'group_sites_for_algorithm/group_split on a psi grouped %s with group_sites=%d, loaded=%s: %s'
+                     % (c['stack'], c['gs'], c['loaded'], r['outcome'][:300]), dict(case, observed=r))
+            continue
+        e = enters[0]
+        # oracle from the documentation, where it speaks: a run that is not loaded from a checkpoint groups psi by
+        # group_sites; a psi loaded from a checkpoint that is already grouped group_sites times is left alone; the model
+        # is always grouped by group_sites; to_NN gives a NearestNeighborModel; group_split restores the model
+        probs = []
+        L = c['L']
+        if e['L_model_after'] != (-(-L // c['gs'])):
+            probs.append('model has %d sites, expected ceil(%d/%d)' % (e['L_model_after'], L, c['gs']))
+        if c['gs'] > 1 and not c['loaded'] and e['after'] != c['before'] * c['gs']:
+            probs.append('fresh run: psi.grouped %d -> %d' % (c['before'], e['after']))
+        if c['gs'] > 1 and c['loaded'] and c['before'] == c['gs'] and e['after'] != c['gs']:
+            probs.append('loaded psi already grouped %d times was grouped again: psi.grouped = %d' % (c['gs'], e['after']))
+        if c['gs'] > 1 and c['loaded'] and c['before'] == 1 and e['after'] != c['gs']:
+            probs.append('loaded ungrouped psi: psi.grouped = %d' % e['after'])
+        if c['gs'] == 1 and (e['after'] != c['before'] or r.get('has_ungrouped')):
+            probs.append('group_sites=1 changed the grouping: %d -> %d' % (c['before'], e['after']))
+        if c['gs'] > 1 and c.get('to_NN') != (r.get('model_class') == 'NearestNeighborModel'):
+            probs.append('group_to_NearestNeighborModel=%s but the model is a %s' % (c.get('to_NN'), r.get('model_class')))
+        if splits[0]['sim_grouped'] != 1 or splits[0]['L_model_after'] != L:
+            probs.append('after group_split: sim.grouped=%d, model has %d sites' % (splits[0]['sim_grouped'], splits[0]['L_model_after']))
+        if probs:
+            ctx.fail('oracle', 'group_sites_for_algorithm (psi grouped %s, group_sites=%d, loaded_from_checkpoint=%s): '
+                     % (c['stack'], c['gs'], c['loaded']) + '; '.join(probs), dict(case, observed=r), match_key='C18:guard:grouping')
+        coq_group.append(group_literal(c['loaded'], c['gs'], list(reversed(c['stack'])), e, splits[0]))
+        meta_group.append(dict(case, observed=r))
 
 
 # ----------------------------------------------------------------------------------------------
@@ -540,15 +747,25 @@ def main(ctx):
                 eval_histories(ctx, inp['stream'], res, inp['safe'], inp['nsteps'], inp['fmt'], cc, cm)
                 run_coq(ctx, 'c18_replay', 'check_history', cc, cm, 'Model/Fs.v and the implementation disagree on this history')
             return ctx.finish(RULE, 'replay of one recorded history')
-        if inp.get('stream') == 'real-resume':
-            (res, err), = common.run_impl_parallel('c18_impl.py', [dict(kind='real', spec=inp['spec'], modes=[inp.get('mode', 'listener')],
-                                                                         checkpoints=[inp['at']] if 'at' in inp else None)])
-            cc, cm = [], []
+        if inp.get('stream') in ('real-resume', 'real-resume-options'):
+            (res, err), = common.run_impl_parallel('c18_impl.py', [dict(kind='real', spec=inp['spec'], modes=[inp.get('mode') or 'listener'],
+                                                                         checkpoints=[inp['at']] if inp.get('at') else None)])
+            cc, cm, cg, mg = [], [], [], []
             if err or 'runner_error' in res:
                 ctx.fail('correspondence', 'runner failed: %s' % (err or res['runner_error'])[-400:], None)
             else:
-                real_oracle(ctx, res, cc, cm)
+                real_oracle(ctx, res, cc, cm, cg, mg)
+                run_coq(ctx, 'c18_replay_g', 'check_group', cg, mg, 'Model/ResumeProto.v g_enter/g_split and the implementation disagree')
             return ctx.finish(RULE, 'replay of one recorded resume')
+        if inp.get('stream') == 'group-guard':
+            (res, err), = common.run_impl_parallel('c18_impl.py', [dict(kind='group_guard', cases=[inp['case']])])
+            cg, mg = [], []
+            if err or isinstance(res, dict):
+                ctx.fail('correspondence', 'runner failed: %s' % (err or res)[-400:], None)
+            else:
+                guard_eval(ctx, [inp['case']], res, cg, mg)
+                run_coq(ctx, 'c18_replay_g', 'check_group', cg, mg, 'Model/ResumeProto.v g_enter/g_split and the implementation disagree')
+            return ctx.finish(RULE, 'replay of one grouping-guard case')
     # ---- 1. histories of the step simulation
     jobs = []
     partial_q = [0, 1, 0.5, 0.999]
@@ -588,10 +805,17 @@ def main(ctx):
     fcases = fix_cases(ctx)
     fchunks = [fcases[i::3] for i in range(3)]
     fjobs = [dict(kind='fix_names', cases=ch) for ch in fchunks]
-    allres = common.run_impl_parallel('c18_impl.py', rjobs + jobs + djobs + fjobs, maxpar=NP)
+    # ---- 5. resume equivalence over the option space; the grouping guard directly (generated after all other streams)
+    ospecs = option_specs(ctx)
+    ojobs = [dict(kind='real', spec=sp, modes=sp['modes']) for sp in ospecs]
+    gcases = guard_cases(ctx)
+    gjobs = [dict(kind='group_guard', cases=gcases)]
+    rjobs = ojobs + rjobs           # the longest jobs first
+    allres = common.run_impl_parallel('c18_impl.py', rjobs + jobs + djobs + fjobs + gjobs, maxpar=NP)
     rres, jres = allres[:len(rjobs)], allres[len(rjobs):len(rjobs) + len(jobs)]
     dres = allres[len(rjobs) + len(jobs):len(rjobs) + len(jobs) + len(djobs)]
-    fres = allres[len(rjobs) + len(jobs) + len(djobs):]
+    fres = allres[len(rjobs) + len(jobs) + len(djobs):len(rjobs) + len(jobs) + len(djobs) + len(fjobs)]
+    gres = allres[len(rjobs) + len(jobs) + len(djobs) + len(fjobs):]
 
     coq_cases, coq_meta = [], []
     for job, (res, err) in zip(jobs, jres):
@@ -628,15 +852,24 @@ def main(ctx):
             'Model/FixNames.v fix_name and Simulation.fix_output_filenames disagree on the chosen output name / Skip / ValueError',
             imports=FIX_IMPORTS)
 
-    coq_proto, meta_proto = [], []
+    coq_proto, meta_proto, coq_group, meta_group = [], [], [], []
     for job, (res, err) in zip(rjobs, rres):
         if err or 'runner_error' in res:
             ctx.fail('correspondence', 'real-simulation runner failed for %s: %s' % (job['spec'], (err or res['runner_error'])[-600:]),
-                     {'stream': 'real-resume', 'spec': job['spec']})
+                     {'stream': job['spec'].get('stream', 'real-resume'), 'spec': job['spec']})
             continue
-        real_oracle(ctx, res, coq_proto, meta_proto)
+        real_oracle(ctx, res, coq_proto, meta_proto, coq_group, meta_group)
     run_coq(ctx, 'c18_proto', 'check_proto', coq_proto, meta_proto,
-            'Model/ResumeProto.v and the implementation disagree on the sequence of measurement times (plain or resumed run)')
+            'Model/ResumeProto.v and the implementation disagree on the sequence of measurement times or on psi.grouped '
+            '(checkpoint file / final state; plain or resumed run)')
+    for (res, err) in gres:
+        if err or isinstance(res, dict):
+            ctx.fail('correspondence', 'group_guard runner failed: %s' % (err or res.get('runner_error', ''))[-500:], None)
+            continue
+        guard_eval(ctx, gcases, res, coq_group, meta_group)
+    run_coq(ctx, 'c18_group', 'check_group', coq_group, meta_group,
+            'Model/ResumeProto.v g_enter/g_model/g_split and Simulation.group_sites_for_algorithm/group_split disagree on psi.grouped '
+            'or the lengths of psi / model')
 
     ctx.assumptions += [
         'C18 A-fs: rename and unlink are atomic and durable in program order, only a write can be torn (prefix of the bytes); no fsync reordering, no lost directory entries',
@@ -645,7 +878,8 @@ def main(ctx):
     ]
     return ctx.finish(RULE, 'Coq: crash safety of an uninterrupted run for every number of saves and crash point; of resumed histories unless a resume '
                       'starts with a partial output file (that case is refuted by a witness, reproduced on the code: F11); measurement protocol '
-                      'none-lost-none-duplicated for every snapshot (error accumulator refuted: F12). save_results regenerated from source and '
+                      'none-lost-none-duplicated for every snapshot, every measure_initial / group_sites (error accumulator refuted: F12); the grouping guard of '
+                      'group_sites_for_algorithm is idempotent on every snapshot (T18_resume_grouping). save_results regenerated from source and '
                       'proved equal to the model; model run against every enumerated history.')
 
 
@@ -656,4 +890,11 @@ RULE = ('fs-history: all crash points (before every primitive path operation, in
         'fix_output_filenames in directories with generated subsets of the names out, out_1 .. out_99 (+ names to be ignored) x skip_if_output_exists x '
         'overwrite_output x loaded_from_checkpoint against Model/FixNames.v fix_name; non-trivial = the configured name exists. real-resume: DMRG (1-/2-site), TEBD '
         '(order 2/4), TDVP (1-/2-site) simulations stopped at every algorithm checkpoint (after the save, inside the write, after the rename), resumed, '
-        'compared with the plain run.')
+        'compared with the plain run. real-resume-options: the same comparison with the simulation options drawn per seed: simulation/engine '
+        'class (incl. ExpMPOEvolution) x pickle/HDF5 x group_sites 1/2 (TEBD also group_to_NearestNeighborModel on a next-nearest-neighbour chain) x '
+        'measure_initial x save at every checkpoint / only every few checkpoints (save_every_x_seconds > 0 under a deterministic clock) x '
+        '(save_psi, save_resume_data) in (T,T),(F,T),(F,F: documented refusal); stopped after every checkpoint + inside a write / after a rename; '
+        'psi.grouped and the lengths of psi and model after group_sites_for_algorithm / group_split of every process are compared with '
+        'Model/ResumeProto.v (check_group), psi.grouped in the checkpoint file and of the final states with check_proto. group-guard: '
+        'group_sites_for_algorithm + group_split called directly on psi pre-grouped by [], [2], [3], [4], [2,2] x group_sites 0..4 x '
+        'loaded_from_checkpoint; non-trivial = group_sites > 1.')
